@@ -29,7 +29,7 @@ type rulesFile struct {
 	prefix  string // NNN
 }
 
-var operandSamples = []string{"old", "^foo$", `a\"b`, `x" @rx y`, `\"@rx `, "a b", `\x5c`, `(?i)sel(?:ect)?`, `[\s\x0b]+`, `a" \ b`, "", `$`, `\\x5c"`}
+var operandSamples = []string{" lead", "  two blanks", "\tafter tab", "trail ", " ", "old", "^foo$", `a\"b`, `x" @rx y`, `\"@rx `, "a b", `\x5c`, `(?i)sel(?:ect)?`, `[\s\x0b]+`, `a" \ b`, "", `$`, `\\x5c"`}
 
 func genRulesFile(r *rand.Rand) rulesFile {
 	prefix := fmt.Sprintf("9%02d", r.Intn(100))
@@ -316,6 +316,11 @@ func genUpdateCases(r *rand.Rand, tier string, prop string) []Case {
 		}
 		tg := pick(r, rf.targets)
 		newRe := pick(r, []string{"new", `a\"b`, `x\"@rx y`, `$1${2}`, `(?i)a|b`, `[\s\x0b]`, "", `a b" \x`, `\x5c`, `^(?:sel)ect\b`, " lead", "trail ", "  two", "\tTab", " ", `\$_(?:GET|POST)\[`, `[0-9]+\$$`, "old", "ld", "d"})
+		if i%9 == 4 {
+			// the regex mentions an id (its own rule's or another one's): text inside an operand is not an id (D27)
+			other := pick(r, rf.targets)
+			newRe = pick(r, []string{"id:" + tg.id, "x id:" + other.id + ",y", "\\bid:" + tg.id + "\\b|SecRule"})
+		}
 		k := bytes.Repeat([]byte{'x'}, tg.chain)
 		base := [][]byte{[]byte(rf.content), []byte(tg.id), k, []byte(newRe)}
 		c := Case{Kind: "rules-file", Ops: []Op{{"update.apply", base}, {"update.read", base[0:3]}}}
@@ -329,6 +334,9 @@ func genUpdateCases(r *rand.Rand, tier string, prop string) []Case {
 		}
 		if i < nCli {
 			p := genProgram(r, progOpts{maxDepth: 1, maxItems: 4, exotic: 0.6, flagsPfxSf: true})
+			if i%6 == 1 {
+				p.Input = "id:" + tg.id + "\n" // the regex mentions the rule's own id (D27)
+			}
 			c.Kind = "rules-file+cli"
 			c.Oracles = append(c.Oracles, Op{"c12.cli", [][]byte{[]byte(rf.content), []byte(tg.id), []byte(strconv.Itoa(tg.chain)), []byte(p.Input)}})
 		}
